@@ -98,7 +98,7 @@ def setDecodedData (decode : DPT → Pay → DRes Val) (tbl : Table GA DPT)
   if t.decoded.isSome then .ok t
   else if !t.kind.isValue then .ok t
   else match t.dst with
-    | none => .error .assertion
+    | none => .ok t               -- not a group / internal destination: nothing to decode (was an assert before fix d5f8117)
     | some ga => lookupAndDecode decode tbl ga t
 
 /-! ### RemoteValue.process -/
